@@ -47,6 +47,10 @@ type SOp struct {
 	// exc2: the endpoint, drawn independently of the name ("" = one derived from the name,
 	// as older replays have it)
 	Endpoint string `json:"endpoint,omitempty"`
+	// scale (scale_test.go): bulk-agents / bulk-exc2: N agent types / ExC2 listeners named
+	// Name#k registered by the connection in slot Conn; bulk-conns: N further connections
+	// that register one agent type each and leave again, most recently accepted first
+	N int `json:"n,omitempty"`
 }
 
 // CaseC is a history over connection slots.  The first NConn slots are connected up
@@ -115,6 +119,7 @@ func genC(t *rapid.T) CaseC {
 		}
 		c.Ops = append(c.Ops, op)
 	}
+	withScaleC(t, &c, ab, xb)
 	c.Final = rapid.Permutation([]int{0, 1, 2, 3, 4}[:c.Slots]).Draw(t, "final")
 	for i := 0; i < c.Slots; i++ {
 		c.Abrupt = append(c.Abrupt, rapid.Bool().Draw(t, "abrupt"))
@@ -498,7 +503,7 @@ func checkC(c CaseC) *core.Violation {
 		// everything registered by the others still works
 		var relayMagic uint32
 		var relayOwner int
-		for _, a := range m.agents {
+		for ai, a := range m.agents {
 			if a.owner < 0 {
 				continue
 			}
@@ -508,9 +513,12 @@ func checkC(c CaseC) *core.Violation {
 			if relayMagic == 0 {
 				relayMagic, relayOwner = magicFor(a.name), a.owner
 			}
+			if !sampled(ai, len(m.agents)) {
+				continue // at scale: every survivor is looked up, the first and last four are relayed
+			}
 			routes := []string{"opext"}
-			for _, x := range m.exc2 {
-				if x.owner >= 0 {
+			for xi, x := range m.exc2 {
+				if x.owner >= 0 && sampled(xi, len(m.exc2)) {
 					routes = append(routes, x.ep)
 				}
 			}
@@ -533,8 +541,8 @@ func checkC(c CaseC) *core.Violation {
 		if relayMagic == 0 {
 			// no agent type survives: a surviving ExC2 endpoint must still answer (refusing an
 			// unknown magic value) instead of being gone or wedged
-			for _, x := range m.exc2 {
-				if x.owner < 0 {
+			for xi, x := range m.exc2 {
+				if x.owner < 0 || !sampled(xi, len(m.exc2)) {
 					continue
 				}
 				marker++
@@ -597,12 +605,100 @@ func checkC(c CaseC) *core.Violation {
 			}
 			continue
 		}
+		if op.Op == "bulk-conns" {
+			n := op.N
+			if n > maxBulkConns {
+				n = maxBulkConns
+			}
+			step := fmt.Sprintf("step %d (%d further connections)", i, n)
+			var extra []int
+			for k := 0; k < n; k++ {
+				id := nextID
+				nextID++
+				cl, err := fx.Connect(id)
+				if err != nil {
+					skip("service-connect", err)
+					break
+				}
+				clients[id] = cl
+				m.alive = append(m.alive, id)
+				extra = append(extra, id)
+				if nm := bulkName(op.Name+"@conn", k); !has(m.agents, nm) {
+					cl.RegisterAgent(nm, magicFor(nm))
+					m.agents = append(m.agents, item{name: nm, owner: id})
+				}
+				if err := cl.Barrier(); err != nil {
+					return inconclusive("barrier: %v", err)
+				}
+			}
+			if !svcx.Quiesce() {
+				return inconclusive("teamserver goroutines did not come to rest")
+			}
+			if v := compare("bulk-conns", step); v != nil {
+				return v
+			}
+			for k := len(extra) - 1; k >= 0; k-- {
+				id := extra[k]
+				cnt := svcx.CountGoroutines("service.(*Service).handleConnection")
+				clients[id].Leave(k%2 == 1)
+				if !svcx.WaitGoroutines("service.(*Service).handleConnection", cnt-1) {
+					return inconclusive("%s: the teamserver did not finish handling the disconnect of connection %d within %v", step, id, svcx.Bound)
+				}
+				m.alive = m.alive[:len(m.alive)-1]
+				var keep []item
+				for _, a := range m.agents {
+					if a.owner != id {
+						keep = append(keep, a)
+					}
+				}
+				m.agents = keep
+				if k == len(extra)/2 || k == 0 {
+					if v := compare("bulk-conns-leave", fmt.Sprintf("%s: %d of them have left again", step, len(extra)-k)); v != nil {
+						return v
+					}
+				}
+			}
+			continue
+		}
 		if !connected || !isAlive(id) {
 			continue
 		}
 		cl := conns[id]
 		step := fmt.Sprintf("step %d (%s %s by connection %d in slot %d)", i, op.Op, op.Name, id, op.Conn)
 		switch op.Op {
+		case "bulk-agents":
+			n := op.N
+			if n > maxBulkItems {
+				n = maxBulkItems
+			}
+			for k := 0; k < n; k++ {
+				if nm := bulkName(op.Name, k); !has(m.agents, nm) {
+					cl.RegisterAgent(nm, magicFor(nm))
+					m.agents = append(m.agents, item{name: nm, owner: id})
+				}
+			}
+			if err := cl.Barrier(); err != nil {
+				return inconclusive("barrier: %v", err)
+			}
+		case "bulk-exc2":
+			n := op.N
+			if n > maxBulkItems {
+				n = maxBulkItems
+			}
+			for k := 0; k < n; k++ {
+				nm, ep := bulkName(op.Name, k), fmt.Sprintf("bulk-ep-%d-%d", id, k)
+				if has(m.exc2, nm) {
+					continue
+				}
+				ok, _, err := cl.AddExC2(nm, ep)
+				if err != nil {
+					return inconclusive("exc2: %v", err)
+				}
+				if !ok {
+					return core.V("svc|register|exc2-verdict", "%s: the teamserver answered Success=false to ExC2 listener %d of a bulk of %d although neither the name %q nor the endpoint %q is taken", step, k, n, nm, ep)
+				}
+				m.exc2 = append(m.exc2, item{name: nm, owner: id, ep: ep})
+			}
 		case "agent":
 			cl.RegisterAgent(op.Name, magicFor(op.Name))
 			if err := cl.Barrier(); err != nil {
@@ -729,12 +825,25 @@ func classifyC(c CaseC) core.Class {
 		}
 	}
 	kinds := map[string]bool{}
+	scale := ""
 	for _, op := range c.Ops {
 		if op.Conn < 0 || op.Conn >= nslots {
 			continue
 		}
 		id, connected := cur[op.Conn]
 		switch {
+		case op.Op == "bulk-conns":
+			cl.Labels = append(cl.Labels, "scale:service-connections-alive:"+scaleBucket(op.N))
+			scale += "+conns-" + scaleBucket(op.N)
+		case connected && op.Op == "bulk-agents":
+			cl.Labels = append(cl.Labels, "scale:agent-types-of-one-connection:"+scaleBucket(op.N))
+			scale += "+agents-" + scaleBucket(op.N)
+			perConn[id] += op.N
+		case connected && op.Op == "bulk-exc2":
+			cl.Labels = append(cl.Labels, "scale:exc2-listeners-of-one-connection:"+scaleBucket(op.N))
+			scale += "+exc2-" + scaleBucket(op.N)
+			perConn[id] += op.N
+			exc2Of[id] += op.N
 		case op.Op == "connect":
 			if !connected {
 				if leaves > 0 {
@@ -810,13 +919,17 @@ func classifyC(c CaseC) core.Class {
 	}
 	sort.Strings(ks)
 	cl.Fingerprint = fmt.Sprintf("conns=%d|nonlast=%d|rejoin=%d|lateleave=%d|dups=%d|multi=%d|kinds=%s", min(next, 5), min(nonLast, 2), min(rejoin, 2), min(lateLeave, 1), min(dups, 2), min(multi, 2), strings.Join(ks, "+"))
+	if scale != "" {
+		cl.Fingerprint += "|scale=" + scale
+		cl.NonTrivial = true
+	}
 	return cl
 }
 
 func TestC16c(t *testing.T) {
 	core.Run(t, core.Spec[CaseC]{
 		Property: "C16", Sub: "c",
-		Rule: "histories over 2-5 connection slots of connect / register / disconnect operations: real websocket service connections (authenticated against the route registered by the real Service.Start) are opened at any point - also after earlier ones have left, a slot can be connected again and again, each time as a new connection - register agent types (pool of 3 names with distinct magic values), service-defined listener kinds (pool of 2) and External-C2 listeners/endpoints (pool of 4) in generated interleaved order - a taken name may be tried again by anybody - and leave (clean close frame or abrupt TCP close) at any point, the rest in a generated final order; after each registration the four registries (Service.Agents, Service.Listeners, ExC2 entries of ts.Listeners, ts.Endpoints) equal the first-come-first-served model; after each disconnect exactly the leaver's items are gone, the operator's own External listener is untouched, and every surviving agent type is relayed (agent request with its magic value through the operator endpoint and every surviving ExC2 endpoint, answered by the owning connection) every surviving ExC2 endpoint still answers, and every surviving listener kind still forwards a start request to its connection. Non-trivial: >=2 connections and a connection that is not the most recently accepted one leaves; distinct = (#connections made, non-last leaves 0/1/2+, connects after a leave 0/1/2+, late joiner leaving while an older connection holds an ExC2 listener 0/1, taken-name attempts 0/1/2+, connections with >=2 items 0/1/2+, kinds registered)",
+		Rule: "histories over 2-5 connection slots of connect / register / disconnect operations: real websocket service connections (authenticated against the route registered by the real Service.Start) are opened at any point - also after earlier ones have left, a slot can be connected again and again, each time as a new connection - register agent types (pool of 3 names with distinct magic values), service-defined listener kinds (pool of 2) and External-C2 listeners/endpoints (pool of 4) in generated interleaved order - a taken name may be tried again by anybody - and leave (clean close frame or abrupt TCP close) at any point, the rest in a generated final order; after each registration the four registries (Service.Agents, Service.Listeners, ExC2 entries of ts.Listeners, ts.Endpoints) equal the first-come-first-served model; after each disconnect exactly the leaver's items are gone, the operator's own External listener is untouched, and every surviving agent type is relayed (agent request with its magic value through the operator endpoint and every surviving ExC2 endpoint, answered by the owning connection) every surviving ExC2 endpoint still answers, and every surviving listener kind still forwards a start request to its connection. SCALE: in one history of 40 one BULK operation with a threshold-adjacent count from {63,64,65,...,1023,1024,1025} is placed at a generated position: that many agent types or ExC2 listeners (endpoints of their own) registered by one connection through the same websocket messages (pool cut at 1025; thorough 4097 / 2049), or that many FURTHER service connections alive at once (real websockets, pool cut at 129, thorough 257) which register one agent type each and leave again most recently accepted first; the registries are compared with the model right after the bulk (for connections also when half and when all of them have left) and after every later step; with more than 16 survivors every surviving agent type is looked up but only the first and last four are relayed, through the first and last four surviving endpoints. Non-trivial (a bulk also counts): >=2 connections and a connection that is not the most recently accepted one leaves; distinct = (#connections made, non-last leaves 0/1/2+, connects after a leave 0/1/2+, late joiner leaving while an older connection holds an ExC2 listener 0/1, taken-name attempts 0/1/2+, connections with >=2 items 0/1/2+, kinds registered)",
 		Gen:  genC, Check: shrinkBudget(40*time.Second, checkC), Classify: classifyC,
 		Assumptions: []string{
 			"registrations and disconnects are applied one at a time (orders, not concurrent schedules): each step is followed by a request/reply barrier on the same connection or by the connection goroutine's exit",
